@@ -101,9 +101,11 @@ package file
 //@ func (*SpokFile).Run
 //@ props C03 C09 C01 C02 C14 C05
 //@ requires runner != nil && TasksInv(s) && I01(cp(s)) && s.Globs != nil && GlobsCurrent(s)
-//@ modifies fexists, fdata, last, ranCount, dagV, dagE, dagItem, dagN, qpos, lastGraph, runPhase, mapOf(s.Globs), fswrites
+//@ modifies fexists, fdata, last, ranCount, dagV, dagE, dagItem, dagN, qpos, lastGraph, runPhase, mapOf(s.Globs), fswrites, lastForce
 //@ ensures [C19,writes-only-inside-the-cache-directory] forall p string :: {fswrites[p]} fswrites[p] && !old(fswrites)[p] ==> ancOrSelf(join2(s.Dir, ".spok"), p)
 //@ at entry: ghost runPhase = 0
+//@ at entry: ghost lastForce = force
+//@ ensures [C14,force-recorded] lastForce == force
 //@ at return buildGraph#0: ghost lastGraph = dag
 //@ at call run#0: ghost runPhase = 1
 //@ ensures [I01] I01(cp(s))
